@@ -1,5 +1,5 @@
 """Seeded scenario generators for the recording harness."""
-import random
+import math, random
 
 DENS = [
     {"kind": "Normal", "mu": [0.0], "sd": [1.0]},
@@ -84,6 +84,16 @@ def schedule_scenarios(seed, n):
             else:
                 dens = DENS[0]
         sss = {"jitter": rnd.choice([None, 0.0, 0.1]), "adapt_options": {"method": method}}
+        # configured (non-default) estimator options: an own random generator so that the rest of the scenario does not shift
+        ro = random.Random(seed * 977 + i)
+        if ro.random() < 0.4 and method in ("DualAverage", "Adam"):
+            if method == "DualAverage":
+                sss["adapt_options"]["dual_average"] = {"k": ro.choice([0.75, 0.6, 1.0]), "t0": ro.choice([10.0, 3.0, 25.0]),
+                                                        "gamma": ro.choice([0.05, 0.2, 0.5]),
+                                                        "max_step_size": ro.choice([math.pi, 0.25, 0.6, 1.0])}
+            else:
+                sss["adapt_options"]["adam"] = {"beta1": ro.choice([0.9, 0.5]), "beta2": ro.choice([0.999, 0.9]),
+                                                "epsilon": 1e-8, "learning_rate": ro.choice([0.05, 0.01, 0.2])}
         st = {"num_tune": nt, "num_draws": rnd.choice([0, 1, 8, 30]), "seed": rnd.randrange(1 << 30)}
         if "nuts" in preset:
             st["maxdepth"] = rnd.choice([3, 5, 8])
